@@ -4,7 +4,7 @@
   Code modelled (line by line):
     secs1/transport.go   genState / t.gen (atomic pointer), startActive / acceptLoop (publish the bundle, TCPUp,
                          CommitSelected, spawn the line engine), Write (gen.Load, I1 conn check, hand-off select,
-                         result select), lineEngine (loop: genDone / take a request / poll / receive), runSend,
+                         result select — as repaired by c77bf45: its genDone branch first takes a report that is already in), lineEngine (loop: genDone / take a request / poll / receive), runSend,
                          Stop (seal, gen.Store(nil), engineCancel, close(genDone), conn.Close, bounded join), ArmStart
     secs1/line.go        sendBlock as far as it decides WHICH socket carries a block, what is counted
                          (incBlockSendCount / incBlockRetryCount / incBlockSendFailedCount) and that a block taken during a
@@ -73,7 +73,8 @@ inductive Pc where
   | locked     -- e.writeMu held
   | checked    -- writeFrame: conn := e.liveConn() non-nil, e.ctx not done, B2 passed; about to call tr.Write(conn)
   | loaded     -- Write: gs := t.gen.Load(), gs != nil, gs.conn == conn; parked in select { gs.sendReqCh <- req | <-gs.genDone }
-  | handed     -- the engine took req; parked in select { <-req.done | <-gs.genDone }
+  | handed     -- the engine took req; parked in select { <-req.done | <-gs.genDone } (the genDone branch takes a result
+               -- that is already in: `select { case err := <-req.done: return err; default: }` before ErrConnClosed)
   | returned   -- Write (or a pre-write check) returned; e.writeMu still held
   | written    -- W-bit only: writeFrame returned nil (send counted, lock released)
   | waiting    -- in-flight gauge incremented, parked in the four-way reply wait
@@ -93,6 +94,7 @@ structure Sender where
   gs : Option Nat := none        -- the generation bundle Write loaded from t.gen (after the I1 check)
   acked : Nat := 0               -- blocks of this request ACKed so far (engine side)
   done : Option WRes := none     -- req.done (capacity 1): the engine's report
+  late : Bool := false           -- ghost: the engine's report came after the sender had left Write (through genDone)
   wres : Option WRes := none     -- what writeFrame got
   out : Option Outcome := none
   cancelled : Bool := false      -- caller ctx cancelled
@@ -209,7 +211,7 @@ inductive Action where
   | check (i : Nat)
   | load (i : Nat)
   | take (i : Nat)                -- the hand-off rendezvous: sender i's `gs.sendReqCh <- req` meets the engine's receive
-  | bail (i : Nat)                -- `<-gs.genDone` in either select of Write
+  | bail (i : Nat)                -- `<-gs.genDone`: in the hand-off select; in the result select only with req.done still empty
   | result (i : Nat)              -- `<-req.done`
   | unlock (i : Nat)              -- writeFrame returns: counters, e.writeMu released
   | incInflight (i : Nat)
@@ -327,7 +329,7 @@ def enabled (c : Cfg) : Action → Bool
   | .take i => (c.s i).pc = .loaded && (match (c.s i).gs with
     | none => false
     | some g => (c.g g).eng = .idle)
-  | .bail i => ((c.s i).pc = .loaded || (c.s i).pc = .handed) && (match (c.s i).gs with
+  | .bail i => ((c.s i).pc = .loaded || ((c.s i).pc = .handed && (c.s i).done.isNone)) && (match (c.s i).gs with
     | none => false
     | some g => (c.g g).genDone)
   | .result i => (c.s i).pc = .handed && (c.s i).done.isSome
@@ -399,7 +401,7 @@ def apply (c : Cfg) : Action → Cfg
   | .finish g r =>
     let i := (c.g g).eng.req.getD 0
     setS (setG { c with m := { c.m with blockSendFailed := c.m.blockSendFailed + b2n (r = .sendFailed) } } g
-            { c.g g with eng := .idle }) i { c.s i with done := some r }
+            { c.g g with eng := .idle }) i { c.s i with done := some r, late := decide ((c.s i).pc ≠ .handed) }
   | .rx g a =>
     let x := c.g g
     let st := asmStep x.part g a
